@@ -164,6 +164,39 @@ func verifFixtureChainFresh(w *Writer, vals []uint64) {
 	}
 }
 
+// C06.infer-index: a parsed list indexed by the position in the target's own elements.
+type verifFixtureIdxBad []Column
+
+func (c verifFixtureIdxBad) Infer(t ColumnType) error {
+	elems := []ColumnType{t.Elem()}
+	for i, v := range c {
+		if s, ok := v.(Inferable); ok {
+			if err := s.Infer(elems[i]); err != nil {
+				return err
+			}
+		}
+	}
+	return nil
+}
+
+// C06.infer-index negative control: lengths compared first.
+type verifFixtureIdxGood []Column
+
+func (c verifFixtureIdxGood) Infer(t ColumnType) error {
+	elems := []ColumnType{t.Elem()}
+	if len(elems) != len(c) {
+		return errors.New("element count")
+	}
+	for i, v := range c {
+		if s, ok := v.(Inferable); ok {
+			if err := s.Infer(elems[i]); err != nil {
+				return err
+			}
+		}
+	}
+	return nil
+}
+
 // C08: interprets a partial read.
 func verifFixtureRawRead(r io.Reader, buf []byte) (int, error) {
 	n, err := r.Read(buf)
@@ -333,6 +366,24 @@ func runFixtures(c *Ctx, prop string) {
 		}
 	}
 	if prop == "C06" {
+		for _, fn := range p.Funcs() {
+			nm := core.RecvNamed2(fn)
+			if nm == nil || fn.Name() != "Infer" || !strings.HasPrefix(nm.Obj().Name(), "verifFixtureIdx") {
+				continue
+			}
+			_, guarded := inferIndexHits(fn)
+			got := len(guarded) == 0 && nm.Obj().Name() == "verifFixtureIdxGood"
+			for _, g := range guarded {
+				if !g {
+					got = true
+				}
+			}
+			if len(guarded) == 0 {
+				got = nm.Obj().Name() != "verifFixtureIdxBad" // nothing found: wrong for the bad one
+				got = !got
+			}
+			record(nm.Obj().Name()+".Infer", "C06.infer-index", nm.Obj().Name() == "verifFixtureIdxBad", got)
+		}
 		for _, fn := range p.Funcs() {
 			nm := core.RecvNamed2(fn)
 			if nm == nil || fn.Name() != "Infer" || !strings.HasPrefix(nm.Obj().Name(), "verifFixtureCache") {
